@@ -321,7 +321,10 @@ PROPS = {
                  "reference CRC-32/ISO-HDLC over the prefix with adjusted length xor 0x5354554e; encoder output accepted "
                  "(validating decode returns a FINGERPRINT; validate(get_input_text())); after EVERY single-bit flip at every "
                  "position and 6 single-byte substitutions (+1, -1, ~, 3 random) at every offset the altered exact-length buffer "
-                 "must not be accepted as carrying a valid FINGERPRINT. client: " + SIMRULE + "clients of every mechanism with "
+                 "must not be accepted as carrying a valid FINGERPRINT. misplaced: library-encoded messages in which ordinary "
+                 "attributes and/or a second FINGERPRINT follow the first FINGERPRINT: its value is the reference CRC with the "
+                 "length ending at it, get_input_text + validate accepts it, and the value computed with the whole datagram's "
+                 "length is not accepted; the responder also answers with such misplaced / doubled FINGERPRINTs. client: " + SIMRULE + "clients of every mechanism with "
                  "fingerprints on: every emitted packet ends with a FINGERPRINT carrying the reference CRC; a received response or "
                  "indication whose first FINGERPRINT is missing or wrong (classified from bytes) must give Err, no events, and "
                  "leave its transaction outstanding (hook + later completion); a valid one on a mechanism-less client is "
@@ -329,7 +332,8 @@ PROPS = {
         "assumptions": ["a FINGERPRINT with a correct CRC that is not the last attribute is left open (neither missing nor wrong)"],
         "min_counters": {"c10.bit-faults-rejected": 300000, "c10.byte-faults-rejected": 200000, "c10.untampered-accepted": 1000,
                          "c10.emitted-fingerprint-checked": 10000, "c10.bad-or-missing-fingerprint-received": 1000,
-                         "c10.transaction-survived-bad-fingerprint": 200, "c10.good-fingerprint-delivered": 100},
+                         "c10.transaction-survived-bad-fingerprint": 200, "c10.good-fingerprint-delivered": 100,
+                         "c10.misplaced-rfc-value-validates": 1000, "c10.misplaced-whole-length-crc-rejected": 1000},
     },
     "C13": {
         "title": "Every packet the client emits is well formed and retransmissions are identical",
